@@ -432,6 +432,11 @@ func fileSeek(L *LState) int {
 	var pos int64
 	var err error
 
+	if bwriter, ok := file.writer.(*bufio.Writer); ok {
+		if err = bwriter.Flush(); err != nil {
+			goto errreturn
+		}
+	}
 	err = file.AbandonReadBuffer()
 	if err != nil {
 		goto errreturn
